@@ -393,20 +393,41 @@ fn postcard_roundtrip(m: &Module) -> Result<Module, String> {
     postcard::from_bytes(&bytes).map_err(|e| format!("decode: {e}"))
 }
 
+/// First differing instruction of two modules, for the failure report.
+fn module_diff(a: &Module, b: &Module) -> String {
+    let aranya_policy_module::ModuleData::V0(x) = &a.data;
+    let aranya_policy_module::ModuleData::V0(y) = &b.data;
+    for (i, (p, q)) in x.progmem.iter().zip(y.progmem.iter()).enumerate() {
+        if p != q {
+            return format!("progmem[{i}]: `{p}` vs `{q}`");
+        }
+    }
+    "outside progmem".into()
+}
+
 /// C28 at document level; returns a failure (key, msg, obs) or the machines to re-run on.
 fn c28_document(cx: &Ctxt, text: &str, module: &Module) -> Result<Vec<(&'static str, Machine)>, (String, String, Json)> {
-    let again = match front_end(text, &cx.schemas) {
-        Front::Ok(m) => m,
-        _ => {
+    // Determinism: the same text is compiled several more times (hash-map iteration order is
+    // random per map instance, so one repetition could agree by chance).
+    for round in 0..5 {
+        let again = match front_end(text, &cx.schemas) {
+            Front::Ok(m) => m,
+            _ => {
+                return Err((
+                    "C28:second-compile-rejected".into(),
+                    "the same text compiled the first time and was rejected later".into(),
+                    json!({"round": round}),
+                ));
+            }
+        };
+        if again != *module {
+            let diff = module_diff(module, &again);
             return Err((
-                "C28:second-compile-rejected".into(),
-                "the same text compiled the first time and was rejected the second time".into(),
-                json!({}),
+                "C28:compile-nondeterministic".into(),
+                "compiling the same text twice gave different modules".into(),
+                json!({"round": round, "first_difference": diff}),
             ));
         }
-    };
-    if again != *module {
-        return Err(("C28:compile-nondeterministic".into(), "compiling the same text twice gave different modules".into(), json!({})));
     }
     let base = Machine::from_module(module.clone()).map_err(|e| ("C28:from-module".to_string(), format!("{e}"), json!({})))?;
     let mut out = Vec::new();
